@@ -21,7 +21,8 @@ REQUIRE = {"calls-judged": 20000, "accepted": 2000, "rejected": 5000, "keyword-v
            "stretched-gates-checked": 15, "stretch-factors-sampled": 100}
 
 KINDS = ["QUBIT", "REGISTER", "INT", "FLOAT", "NONE"]
-VALUE_CLASSES = ["qubit", "register", "int", "intfloat", "float", "constI", "constFint", "constF", "pQ", "pR", "pI", "pF", "pN"]
+VALUE_CLASSES = ["qubit", "register", "int", "intfloat", "float", "constI", "constFint", "constF", "pQ", "pR", "pI", "pF", "pN",
+                 "inf", "nan", "hugefloat", "constFinf"]
 
 
 def make_values():
@@ -33,6 +34,8 @@ def make_values():
         "constFint": Constant("cfi", 2.0), "constF": Constant("cf", 0.25),
         "pQ": Parameter("pq", ParamType.QUBIT), "pR": Parameter("pr", ParamType.REGISTER), "pI": Parameter("pi", ParamType.INT),
         "pF": Parameter("pf", ParamType.FLOAT), "pN": Parameter("pn", None),
+        # non-finite floats are no integers; a huge finite float is integral
+        "inf": float("-inf"), "nan": float("nan"), "hugefloat": 1e300, "constFinf": Constant("cinf", float("inf")),
     }
 
 
@@ -47,9 +50,11 @@ def fits(kind, vc):
     if kind == "INT":
         if vc == "pF":
             return None
-        return vc in ("int", "intfloat", "constI", "constFint", "pI", "pN")
+        return vc in ("int", "intfloat", "hugefloat", "constI", "constFint", "pI", "pN")
     if kind == "FLOAT":
-        return vc in ("int", "intfloat", "float", "constI", "constFint", "constF", "pI", "pF", "pN")
+        if vc in ("inf", "nan", "constFinf"):
+            return None  # floats, but not finite numbers: the statement does not say
+        return vc in ("int", "intfloat", "hugefloat", "float", "constI", "constFint", "constF", "pI", "pF", "pN")
     raise ValueError(kind)
 
 
